@@ -77,7 +77,7 @@ impl<'a> FreeVariableCollector<'a> {
                     }
                 }
             }
-            ast::Term::String(_, segments) => {
+            ast::Term::String(_, segments, _) => {
                 // Each hole is an expression that may reference (and so must capture) variables.
                 for segment in segments {
                     if let ast::StrSegment::Hole(expression) = segment {
